@@ -1,6 +1,7 @@
 import LanceModel.C07.StepLemmas
 import LanceModel.C07.RowsLemmas
 import LanceModel.C07.SortLemmas
+import LanceModel.C07.MonoLemmas
 /-
 C07 — "After restoring version v, the new latest version has exactly v's schema, rows, deletions and indices.  Stable
 row ids handed out after a restore are never ones that some earlier version already used."
@@ -160,6 +161,14 @@ theorem append_fragids_fresh (ops : List Op) (h : Hist) (hr : run ops = some h) 
 theorem fragids_sorted (ops : List Op) (h : Hist) (hr : run ops = some h) :
     ∀ m ∈ h.versions, (m.frags.map (·.id)).Pairwise (· < ·) :=
   (sinv_runG ops (s := none) (by intro h hh; cases hh) (by intro h hh; cases hh) h hr).sorted
+
+/-- the two identifier counters are monotone along every history, restores included (row_id_lineage.md: "a
+    monotonically increasing `next_row_id` counter"): newest first, each version's `next_row_id` and `max_fragment_id`
+    are at least those of every older version -/
+theorem marks_monotone (ops : List Op) (h : Hist) (hr : run ops = some h) :
+    h.versions.Pairwise (fun newer older =>
+      older.nextRowId ≤ newer.nextRowId ∧ ∀ i, fragBound older.maxFragId i → fragBound newer.maxFragId i) :=
+  mono_runG ops (s := none) (by intro h hh; cases hh) h hr
 
 /-! ### the pinned commit did not satisfy it (why fix 0b56cc4 exists) -/
 
